@@ -643,6 +643,58 @@ def selftest(ctx):
     r.instance("fixture:wire-driven-recursion-found", any("fixtures::decode::nested" in c for c in comps), "SCCs on fixtures: %s" % comps, nontrivial=False)
 
 
+def inline_view_(facts):
+    from ..inline import inline_view
+    return inline_view(facts)
+
+
+def r7(ctx, facts):
+    """the stream id of the header is a wire value: the handler map indexes its bitmap with it unchecked"""
+    r = ctx.rule("R7", "a reserved (negative) stream id from the frame header never reaches the response-handler map, whose bitmap is indexed with it", floor=1)
+    from ..util import dj_of, cmp_truth, const_int_of, in_set
+    b = facts.one(r"^scylla::network::connection::Connection::reader::\{closure#0\}$")
+    dj = dj_of(b, facts)
+    lks = b.calls_to("ResponseHandlerMap::lookup")
+    if not lks:
+        raise AnchorLost("Connection::reader: ResponseHandlerMap::lookup is not called")
+    cmps = [c for c in b.calls_to("Ord::cmp") if len(c.args) == 2]
+    for lk in lks:
+        s = dj.expr_of_operand(lk.args[1])
+        sts = dj.states_at(lk.bb)
+        ok = bool(sts) and s is not None
+        for st in sts:
+            good = False
+            for k in (0, -1):
+                if k == 0 and (cmp_truth(st, "Ge", s, ("const", 0)) == 1 or cmp_truth(st, "Lt", s, ("const", 0)) == 0):
+                    good = True
+                if k == -1 and (cmp_truth(st, "Gt", s, ("const", -1)) == 1 or cmp_truth(st, "Le", s, ("const", -1)) == 0):
+                    good = True
+            for c in cmps:
+                a0, a1 = dj.expr_of_operand(c.args[0]), dj.expr_of_operand(c.args[1])
+                d = st.get(("disc", (c.dest[0], ())))
+                # Ordering: Less = -1 (255), Equal = 0, Greater = 1
+                def only(vs, allowed):
+                    return vs is not None and vs[0] == "in" and {(x - 256 if x > 127 else x) for x in vs[1]} <= allowed
+                def stream_side(e, op):
+                    # the comparison is on references (`a.cmp(&b)`): compare what the reference points at
+                    if e == s:
+                        return True
+                    sd = b.single_def(op[1][0]) if op[0] in ("c", "m") else None
+                    return bool(sd and sd[0] == "stmt" and sd[3][0] == "ref" and dj.expr_of_operand(["c", sd[3][-1]]) == s)
+                k1, k0 = const_int_of(facts, b, c.args[1]), const_int_of(facts, b, c.args[0])
+                if stream_side(a0, c.args[0]) and k1 is not None:
+                    if (k1 == -1 and only(d, {1})) or (k1 == 0 and only(d, {0, 1})):
+                        good = True
+                if stream_side(a1, c.args[1]) and k0 is not None:
+                    if (k0 == -1 and only(d, {-1})) or (k0 == 0 and only(d, {-1, 0})):
+                        good = True
+            if not good:
+                ok = False
+        r.instance("lookup-only-for-non-negative-stream", ok,
+                   "ResponseHandlerMap::lookup is reached with a stream id that is not known to be >= 0: StreamIdSet::free indexes `used_bitmap[stream_id as usize / 64]`, "
+                   "so a frame with stream id -2 (9 bytes: 84 00 ff fe 02 00 00 00 00) panics the connection's reader task instead of being ignored or refused", lk.span)
+
+
 def check(ctx):
     facts = ctx.facts("default")
     try:
@@ -655,7 +707,7 @@ def check(ctx):
     for p, n in per.items():
         anc.instance("entry:" + p, n > 0, "%d bodies match" % n, nontrivial=False)
     ctx.extra["decode_reachable_bodies"] = len(pred)
-    for fn in (lambda: r1(ctx, facts, cg, pred), lambda: r2(ctx, facts), lambda: r3(ctx, facts, cg, pred), lambda: r4(ctx, facts, cg, pred), lambda: r5(ctx, facts), lambda: r6(ctx, facts)):
+    for fn in (lambda: r1(ctx, facts, cg, pred), lambda: r2(ctx, facts), lambda: r3(ctx, facts, cg, pred), lambda: r4(ctx, facts, cg, pred), lambda: r5(ctx, facts), lambda: r6(ctx, facts), lambda: r7(ctx, inline_view_(facts))):
         try:
             fn()
         except AnchorLost as ex:
